@@ -12,6 +12,7 @@ import (
 	"bytes"
 	"context"
 
+	"github.com/rpcpool/yellowstone-faithful/radiance/genesis"
 	old_faithful_grpc "github.com/rpcpool/yellowstone-faithful/old-faithful-proto/old-faithful-grpc"
 )
 
@@ -89,7 +90,9 @@ func verifC02Shape(maxEntries, maxTxs, maxTotal int) []int {
 //	  has one entry with one transaction.
 //	transactions (1): epoch 1 loaded alone or with epoch 0 and 2, parent in the previous epoch; every entry
 //	  shape (1..maxEntries entries x 0..maxTxs transactions, at most maxTotal transactions), positions
-//	  recorded (arbitrary distinct values) or not, metadata present or empty, payload layout plans.
+//	  recorded (arbitrary distinct values) or not, metadata present or empty, payload layout plans
+//	  (plan k stores the data of transaction i in layout (k+i) mod 5 and its metadata in layout
+//	  (k+i+2) mod 5; odd plans record the CRC64 of every payload in its first frame).
 func verifC02BlockScene(symHash bool) *verifC02Scene {
 	verifC02Reset()
 	sc := &verifC02Scene{}
@@ -104,7 +107,7 @@ func verifC02BlockScene(symHash bool) *verifC02Scene {
 		E = verifC02TargetEpochs[verifChoice("epoch", verifParam("epochs", len(verifC02TargetEpochs)))]
 		others = verifChoice("others", verifParam("others", 8))
 	} else {
-		others = 3 * verifChoice("others", 2)
+		others = 3 * verifChoice("others", verifParam("others", 2))
 	}
 	a := verifC02NewEpoch(E)
 	sc.a = a
@@ -122,6 +125,11 @@ func verifC02BlockScene(symHash bool) *verifC02Scene {
 
 	b := &verifC02Block{}
 	genesisBlock := header && E == 0 && verifChoice("slot0", 2) == 1
+	if E == 0 && (!genesisBlock || verifChoice("genesis", 2) == 1) {
+		// epoch 0 loaded with its genesis (only block 0's block time depends on it; not asserted:
+		// time.Time.Unix is an engine model)
+		a.e.genesis = &GenesisContainer{Config: &genesis.Genesis{}}
+	}
 	if genesisBlock {
 		b.slot, b.parent = 0, 0
 	} else {
@@ -162,10 +170,10 @@ func verifC02BlockScene(symHash bool) *verifC02Scene {
 		sc.hasPos = true
 		sc.txs = verifC02BuildBlock(a, b, []int{1}, true, 0, nData, nMeta, false, symHash)
 	} else {
-		sc.hasPos = verifChoice("positions", 2) == 1
+		sc.hasPos = verifChoice("positions", verifParam("positionModes", 2)) == verifParam("positionModes", 2)-1
 		shape := verifC02Shape(verifParam("maxEntries", 2), verifParam("maxTxs", 2), verifParam("maxTotal", 4))
 		plan := verifChoice("layoutPlan", verifParam("layoutPlans", 1))
-		sc.txs = verifC02BuildBlock(a, b, shape, sc.hasPos, plan, nData, nMeta*verifChoice("metaPresent", 2), verifParam("frameHash", 0) == 1, symHash)
+		sc.txs = verifC02BuildBlock(a, b, shape, sc.hasPos, plan, nData, nMeta*(verifChoice("metaPresent", verifParam("metaModes", 2))+2-verifParam("metaModes", 2)), plan%2 == 1, symHash)
 	}
 	sc.b = b
 	return sc
@@ -234,5 +242,20 @@ func VerifC02GrpcBlock() {
 			verifAssert(bytes.Equal(r.Meta, t.meta.want), "C02.grpcBlock: metadata bytes differ from the archive")
 		}
 	}
+	verifReach("end")
+}
+
+// C02.grpcBlockFetchFail — a transaction node of the requested block cannot be read (I/O error of the
+// CAR / remote storage): the answer must be an error; not a crash, and not a block that silently
+// lacks the transaction.
+func VerifC02GrpcBlockFetchFail() {
+	sc := verifC02BlockScene(true)
+	if len(sc.txs) == 0 {
+		return
+	}
+	verifKnownFinding("C02-getblock-tx-fetch-failure-nil-deref", true)
+	sc.a.failing = &sc.txs[verifChoice("failingTx", len(sc.txs))].c
+	resp, err := sc.multi.GetBlock(context.Background(), &old_faithful_grpc.BlockRequest{Slot: sc.b.slot})
+	verifAssert(err != nil && resp == nil, "C02.grpcBlockFetchFail: a block whose transaction could not be read is answered without an error")
 	verifReach("end")
 }
